@@ -65,6 +65,6 @@ fn main() {
             Box::new(garbage::corpus_part()),
             Box::new(garbage::fuzz_part()),
         ],
-        children: vec![("gen-corpus", Box::new(garbage::gen_corpus)), ("calibrate", Box::new(garbage::calibrate)), ("probe", Box::new(garbage::probe)), ("sparse-dim", Box::new(nv_c20::oracle::sparse_dimension_child))],
+        children: vec![("gen-corpus", Box::new(garbage::gen_corpus)), ("calibrate", Box::new(garbage::calibrate)), ("probe", Box::new(garbage::probe)), ("sparse-dim", Box::new(nv_c20::oracle::sparse_dimension_child)), ("run-target", Box::new(garbage::run_target_child))],
     });
 }
